@@ -63,6 +63,7 @@ type closure struct {
 
 // frame: per-function (or per-inlined-call) symbolic state
 type frame struct {
+	loopKeep map[*ssa.BasicBlock]map[string]string // loop head -> component -> heap version at the head (`keeps old objects`)
 	fn     *ssa.Function
 	c      *Contract
 	val    map[ssa.Value]string
@@ -455,6 +456,16 @@ func (g *Gen) typeInv(term string, t types.Type, old bool) string {
 			return fmt.Sprintf("(and (<= 0 %s) (< %s %s))", term, term, refBound)
 		}
 		return fmt.Sprintf("(<= 0 %s)", term)
+	case *types.Array:
+		// an array VALUE of integers (Address, Uint256, I128 passed or returned by value): in the mathematical
+		// integer mode every element is a value of its type (explicit conjuncts: these arrays are short)
+		if !g.bv && isInteger(u.Elem()) && u.Len() <= 64 {
+			var cs []string
+			for i := int64(0); i < u.Len(); i++ {
+				cs = append(cs, g.typeInv(fmt.Sprintf("(select %s %d)", term, i), u.Elem(), old))
+			}
+			return "(and " + strings.Join(cs, " ") + ")"
+		}
 	case *types.Struct:
 		var cs []string
 		for i := 0; i < u.NumFields(); i++ {
@@ -952,6 +963,9 @@ func (g *Gen) eqTerm(a, b string, t types.Type) string {
 		sm := types.NewMap(types.Typ[types.String], types.Typ[types.Bool])
 		return fmt.Sprintf("(= %s %s)", g.mapKey(a, sm), g.mapKey(b, sm))
 	}
+	// NOTE arrays: whole-array SMT equality is STRONGER than Go's element-wise comparison (the SMT arrays
+	// have entries outside 0..Len-1). As a branch condition this over-approximates the "unequal" branch
+	// (sound); as a goal it can be unprovable -- harnesses compare element by element instead.
 	return fmt.Sprintf("(= %s %s)", a, b)
 }
 
@@ -1524,7 +1538,17 @@ func (g *Gen) loopHead(b *ssa.BasicBlock, k int, li *loopInfo) {
 			nv := g.fresh("H_"+n+"@loop", s)
 			g.pristine[nv] = true
 			g.cur[n] = nv
-			if g.lastFreshOnly[n] && strings.HasPrefix(s, "(Array Int ") {
+			if lc.KeepsOld && strings.HasPrefix(s, "(Array Int ") && !strings.HasPrefix(n, "GH_") && !strings.HasPrefix(n, "GS_") {
+				// `keeps old objects`: assumed here relative to the heap before the loop, proved at every back edge
+				g.assumeAlways(fmt.Sprintf("(forall ((r Int)) (! (=> (and (<= 0 r) (< r %s)) (= (select %s r) (select %s r))) :pattern ((select %s r))))", refBound, nv, prev, nv))
+				if fr.loopKeep == nil {
+					fr.loopKeep = map[*ssa.BasicBlock]map[string]string{}
+				}
+				if fr.loopKeep[b] == nil {
+					fr.loopKeep[b] = map[string]string{}
+				}
+				fr.loopKeep[b][n] = nv
+			} else if g.lastFreshOnly[n] && strings.HasPrefix(s, "(Array Int ") {
 				// every write to this component in the loop body goes to an object allocated in the body:
 				// the objects that existed before the loop keep their contents
 				g.assumeAlways(fmt.Sprintf("(forall ((r Int)) (! (=> (and (<= 0 r) (< r %s)) (= (select %s r) (select %s r))) :pattern ((select %s r))))", refBound, nv, prev, nv))
@@ -1581,6 +1605,10 @@ func (g *Gen) backEdgeObs(b *ssa.BasicBlock, li *loopInfo) {
 			t := g.transBool(inv.E, env)
 			g.ob(fmt.Sprintf("loop%d-preserve", k), invLabel(inv, i), t, inv.E.String())
 			g.assumeProved(g.curR, t)
+		}
+		for _, n := range sortedKeys(fr.loopKeep[s]) {
+			sk := g.fresh("keep_r", "Int")
+			g.ob(fmt.Sprintf("loop%d-keeps-old", k), n, fmt.Sprintf("(=> (and (< 0 %s) (< %s %s)) (= (select %s %s) (select %s %s)))", sk, sk, refBound, g.heapGet(n), sk, fr.loopKeep[s][n], sk), "objects that existed at function entry keep their "+n+" contents in the loop body")
 		}
 		if lc.Decreases != nil {
 			d := g.trans(lc.Decreases, env)
